@@ -34,7 +34,13 @@ type Ctx struct {
 	Funcs   map[string]*ssa.Function
 	FuncSeq []*ssa.Function // deterministic order
 	name    map[*ssa.Function]string
+	// looking through functions that are new with respect to the frozen table (terms.go)
+	soleCalls map[*ssa.Function]ssa.CallInstruction
+	tenv      *termEnv
 }
+
+// theCtx: the program being analysed (one per process; used by the control-flow helpers to look through new helpers).
+var theCtx *Ctx
 
 // Load loads /repo's current working tree. It fails (returns error) on any type error.
 func Load(repo, goarch string) (*Ctx, error) {
@@ -129,6 +135,7 @@ func Load(repo, goarch string) (*Ctx, error) {
 		}
 		c.FuncSeq = append(c.FuncSeq, f)
 	}
+	theCtx = c
 	return c, nil
 }
 
